@@ -35,7 +35,10 @@ ABIS = {
 }
 ENCODINGS = [0xFF, 0x00, 0x03, 0x1B, 0x9B]
 
-_reg = st.integers(0, 20)
+# (mostly small columns so that rules interact; now and then a column whose
+# LEB128 encoding needs the sign bit or a second byte)
+_reg = st.one_of(st.integers(0, 20), st.integers(0, 20), st.integers(0, 20),
+                 st.sampled_from([63, 64, 72, 118, 127, 128, 200, 8256]))
 _off = st.integers(-64, 64)
 
 
